@@ -5,6 +5,7 @@
 From Coq Require Import NArith List.
 Import ListNotations.
 From CXV Require Import Parse.Fold Parse.FoldThms.
+From CXV Require Import Gen.TokTy Parse.Declarator Parse.DeclSpec Parse.EnumList Parse.NsHeader.
 Open Scope N_scope.
 
 (* fold_compositional: the result of a concatenation of two declaration
@@ -36,6 +37,26 @@ Theorem extern_transparent :
   forall s pre b post, fold_from s (pre ++ EExtern b :: post) = fold_from s (pre ++ b ++ post).
 Proof. exact extern_transparent_lemma. Qed.
 
+(* the names a namespace block contributes to the fold (ENs names) are the names
+   written in its header: `namespace a::b::c {` (any length), `namespace {`;
+   an alias keeps its target path, a leading '::' included; a nested
+   definition cannot be inline *)
+Theorem namespace_header_decodes : forall names rest,
+  ns_header false (path_toks names ++ ktok LBRACE :: rest) = DOk (NsDef names, rest).
+Proof. exact ns_definition_roundtrip. Qed.
+
+Theorem namespace_alias_decodes : forall x (rooted : bool) n q rest,
+  ns_header false (mkTk T_NAME x :: ktok EQ :: (if rooted then [ktok T_DBL_COLON] else []) ++ path_toks (n :: q) ++ ktok SEMI :: rest)
+  = DOk (NsAlias x ((if rooted then [0] else []) ++ n :: q), rest).
+Proof. exact ns_alias_roundtrip. Qed.
+
+Theorem inline_nested_namespace_rejected : forall n m q rest,
+  ns_header true (path_toks (n :: m :: q) ++ ktok LBRACE :: rest) = DErr 3.
+Proof. exact inline_nested_rejected. Qed.
+
+Print Assumptions namespace_header_decodes.
+Print Assumptions namespace_alias_decodes.
+Print Assumptions inline_nested_namespace_rejected.
 Print Assumptions fold_compositional.
 Print Assumptions fold_continues.
 Print Assumptions namespace_reopen.
